@@ -47,6 +47,8 @@ structure Method where
   otherLocks  : List String         -- identifiers (≠ receiver) whose instance lock this method takes
   underOther  : List String         -- own methods called (or "#own-lock") while another instance's lock is held
   extCalls    : List String         -- calls `X.F(…)` on identifiers other than the receiver (package functions …)
+  retSlice    : Bool                -- the method's single result is a slice
+  sliceRets   : List String         -- per return statement: "fresh" | "nil" | "call:<own method>" | "stored:<expr>"
   paths       : List (List Tok)     -- execution paths (loops unrolled ≤ 2), queue types only
   deriving DecidableEq, Repr
 
@@ -170,6 +172,24 @@ def writersUnderReadLock (T : TypeFacts) : List String :=
     this is a lock-order cycle, and with the receiver itself as argument a self-deadlock -/
 def crossInstanceLockers (T : TypeFacts) : List String :=
   (T.methods.filter (fun M => M.underOther.any (fun c => c == "#own-lock" || acquiresWithin T T.fuel c))).map (·.name)
+
+/-! ### returned slices are allocated in the call -/
+
+/-- does every return of `m` hand out a slice allocated in this call (or nil, or what another own
+    method with that property returns)? -/
+def freshSliceWithin (T : TypeFacts) : Nat → String → Bool
+  | 0, _ => false
+  | fuel + 1, m =>
+    match T.find m with
+    | none => false
+    | some M =>
+      M.retSlice && !M.sliceRets.isEmpty && M.sliceRets.all (fun r =>
+        r == "fresh" || r == "nil" ||
+        T.methods.any (fun C => r == "call:" ++ C.name && freshSliceWithin T fuel C.name))
+
+/-- the slice-returning methods of `T` that may return stored memory -/
+def storedSliceReturners (T : TypeFacts) : List String :=
+  (T.methods.filter (fun M => M.retSlice && !freshSliceWithin T T.fuel M.name)).map (·.name)
 
 /-! ### queues: the list is only touched under the condition's mutex; wait/broadcast discipline -/
 
